@@ -40,6 +40,7 @@ class Interp(object):
         self.log_names = ('LOG', 'log', 'logging')
         self.while_unroll = WHILE_UNROLL
         self.merge_loops = False
+        self.unpack_may_raise = False
         self.merge_call_prefixes = ()
         self.base_counter = 0
 
